@@ -222,3 +222,32 @@ seed('c17-simplify-true', 'C17', [(PSC, "    return valid || path.check();", "  
 seed('c17-rope-no-cost-test', 'C17', [(PSC, "                if (obj_->isCostBetterThan(shortcutCost, alongPath))\n                {", "                if (true)\n                {")], 'R17c')
 seed('c17-rope-cost-swapped', 'C17', [(PSC, "                if (obj_->isCostBetterThan(shortcutCost, alongPath))\n                {", "                if (obj_->isCostBetterThan(alongPath, shortcutCost))\n                {")], 'R17c')
 seed('c17-n-check-hoisted', 'C17', [(PSC, "            if (si->checkMotion(states[p1], states[p2]))\n            {\n                if (freeStates_)\n                    for (int j = p1 + 1; j < p2; ++j)", "            const bool shortcutOk = si->checkMotion(states[p1], states[p2]);\n            if (shortcutOk)\n            {\n                if (freeStates_)\n                    for (int j = p1 + 1; j < p2; ++j)")], None)
+
+# ---- C06 -------------------------------------------------------------------------------------------------------
+SSC = 'src/ompl/base/src/StateSpace.cpp'
+RV = 'src/ompl/base/spaces/src/RealVectorStateSpace.cpp'
+SO2C = 'src/ompl/base/spaces/src/SO2StateSpace.cpp'
+SO3C = 'src/ompl/base/spaces/src/SO3StateSpace.cpp'
+DUBH = 'src/ompl/base/spaces/DubinsStateSpace.h'
+WRH = 'src/ompl/base/spaces/WrapperStateSpace.h'
+TORC = 'src/ompl/base/spaces/special/src/TorusStateSpace.cpp'
+MOBC = 'src/ompl/base/spaces/special/src/MobiusStateSpace.cpp'
+seed('c06-compound-no-weight', 'C06', [(SSC, "        dist += weights_[i] * components_[i]->distance(cstate1->components[i], cstate2->components[i]);", "        dist += components_[i]->distance(cstate1->components[i], cstate2->components[i]);")], 'R06a')
+seed('c06-compound-from-1', 'C06', [(SSC, "    double dist = 0.0;\n    for (unsigned int i = 0; i < componentCount_; ++i)\n        dist += weights_[i]", "    double dist = 0.0;\n    for (unsigned int i = 1; i < componentCount_; ++i)\n        dist += weights_[i]")], 'R06a')
+seed('c06-compound-same-state', 'C06', [(SSC, "components_[i]->distance(cstate1->components[i], cstate2->components[i]);", "components_[i]->distance(cstate1->components[i], cstate1->components[i]);")], 'R06a')
+seed('c06-compound-extent-unweighted', 'C06', [(SSC, "            e += weights_[i] * components_[i]->getMaximumExtent();", "            e += components_[i]->getMaximumExtent();")], 'R06a')
+seed('c06-compound-flag-const', 'C06', [(SSC, "bool ompl::base::CompoundStateSpace::hasSymmetricDistance() const\n{\n    return std::all_of(components_.begin(), components_.end(),\n                       [](const StateSpacePtr &component) { return component->hasSymmetricDistance(); });", "bool ompl::base::CompoundStateSpace::hasSymmetricDistance() const\n{\n    return true;")], 'R06a')
+seed('c06-compound-flag-wrong', 'C06', [(SSC, "[](const StateSpacePtr &component) { return component->hasSymmetricDistance(); }", "[](const StateSpacePtr &component) { return component->hasSymmetricInterpolate(); }")], 'R06a')
+seed('c06-dubins-metric', 'C06', [(DUBH, "            bool isMetricSpace() const override\n            {\n                return false;", "            bool isMetricSpace() const override\n            {\n                return true;")], 'R06b')
+seed('c06-dubins-claims-symmetric', 'C06', [(DUBH, "            bool hasSymmetricDistance() const override\n            {\n                return isSymmetric_;", "            bool hasSymmetricDistance() const override\n            {\n                return true;")], 'R06c')
+seed('c06-wrapper-swapped', 'C06', [(WRH, "return space_->distance(state1->as<StateType>()->getState(), state2->as<StateType>()->getState());", "return space_->distance(state2->as<StateType>()->getState(), state1->as<StateType>()->getState());")], 'R06b')
+seed('c06-so2-one-sided', 'C06', [(SO2C, "    double d = fabs(state1->as<StateType>()->value - state2->as<StateType>()->value);", "    double d = state1->as<StateType>()->value - state2->as<StateType>()->value;")], 'R06c')
+seed('c06-rv-self-offset', 'C06', [(RV, "    return sqrt(dist);\n}\n\nbool ompl::base::RealVectorStateSpace::equalStates", "    return sqrt(dist + 1e-12);\n}\n\nbool ompl::base::RealVectorStateSpace::equalStates")], 'R06d')
+seed('c06-so3-equal-componentwise', 'C06', [(SO3C, "    return arcLength(state1, state2) < std::numeric_limits<double>::epsilon();", "    const auto *q1 = static_cast<const StateType *>(state1);\n    const auto *q2 = static_cast<const StateType *>(state2);\n    return q1->x == q2->x && q1->y == q2->y && q1->z == q2->z && q1->w == q2->w;")], 'R06e')
+seed('c06-torus-ignores-second', 'C06', [(TORC, "    return std::sqrt(x * x + y * y);", "    return std::sqrt(x * x);")], 'R06e')
+seed('c06-mobius-seam-asym', 'C06', [(MOBC, "        r2 = -r2;\n\n        dist += std::sqrt((r2 - r1) * (r2 - r1));", "        dist += std::sqrt((r2 - 2.0 * r1) * (r2 - 2.0 * r1));")], 'R06c')
+# neutral rewrites
+seed('c06-n-so3-equal-dot', 'C06', [(SO3C, "    return arcLength(state1, state2) < std::numeric_limits<double>::epsilon();", "    const auto *q1 = static_cast<const StateType *>(state1);\n    const auto *q2 = static_cast<const StateType *>(state2);\n    return fabs(q1->x * q2->x + q1->y * q2->y + q1->z * q2->z + q1->w * q2->w) > 1.0 - 1e-15;")], None)
+seed('c06-n-rv-indexed', 'C06', [(RV, "        double diff = (*s1++) - (*s2++);\n        dist += diff * diff;", "        double diff = s2[i] - s1[i];\n        dist += diff * diff;")], None)
+seed('c06-n-so2-swapped-operands', 'C06', [(SO2C, "    double d = fabs(state1->as<StateType>()->value - state2->as<StateType>()->value);", "    double d = fabs(state2->as<StateType>()->value - state1->as<StateType>()->value);")], None)
+seed('c06-n-compound-commuted', 'C06', [(SSC, "        dist += weights_[i] * components_[i]->distance(cstate1->components[i], cstate2->components[i]);", "        dist = dist + components_[i]->distance(cstate1->components[i], cstate2->components[i]) * weights_[i];")], None)
